@@ -311,6 +311,20 @@ def hier_build(s, variant, skip):
         drive(m, lambda: Not(b, 'nm', t, m))
         drive(z, lambda: Constant(b, 'cz', 3, z))          # an output nobody reads
     D.Box(s, 'blk', {'a': a, 'u': u}, {'m': m, 'z': z}, body)   # input u is not used inside
+    if variant == 'twins':
+        # further instances of the same structural classes under the same parents, each with its own internal wires
+        for k in (1, 2):
+            mk_, zk_ = s.wire('m%d' % k, 2), s.wire('z%d' % k, 2)
+
+            def bodyk(b, k=k, mk_=mk_, zk_=zk_):
+                t = b.wire('t', 2)
+
+                def inner(b2):
+                    drive(t, lambda: mkbuf(b2, 'bt', a, t))
+                D.Box(b, 'in', {'a': a}, {'t': t}, inner)
+                drive(mk_, lambda: Not(b, 'nm', t, mk_))
+                drive(zk_, lambda: Constant(b, 'cz', 3, zk_))
+            D.Box(s, 'blk%d' % k, {'a': a, 'u': u}, {'m': mk_, 'z': zk_}, bodyk)
     if variant == 'scope':
         Probe(s, 'probe', z)                                   # z is read only by a leaf that is not a primitive (no sink is registered)
     drive(o, lambda: mkbuf(s, 'bo', m, o))                       # o is attached to no port when this is left out
@@ -397,7 +411,7 @@ def tasks_for(tier):
             continue
         t.append(('construction API, history starting with op%d parent%d name %s wire%d' % (f[0], f[1], POOL[f[2]], f[3]), construct_task,
                   {'template': 'flat', 'first': f}))
-    for v in ('plain', 'nested', 'scope'):
+    for v in ('plain', 'nested', 'scope', 'twins'):
         t.append(('integrity of a structural hierarchy (%s), one removed driver at a symbolic position' % v, hier_task, {'variant': v}))
     for drv in list(DRIVERS)[1:]:
         t.append(('construction API, template flat, one operation, drivers are %s' % drv, construct_task, {'template': 'flat', 'first': None, 'driver': drv}))
